@@ -40,6 +40,7 @@ def run(rep):
     rep.run(lp_sites)
     rep.run(witnesses)
     rep.run(ordering)
+    rep.run(netfold)
 
 
 def matrices(rep):
@@ -505,3 +506,8 @@ TWINS = [
     dict(name="S written as negated difference", file=ST, old="    S = S_plus - S_minus", new="    S = -S_minus + S_plus"),
     dict(name="bounds as a repeated list", file=ST, old="        bounds = [(1.0, None) for _ in range(n_reactions)]", new="        bounds = [(1.0, None)] * n_reactions"),
 ]
+
+
+def netfold(rep):
+    from ..rules import netfold as NF
+    NF.check(rep, "O17.1", (ST, "synkit/CRN/Hypergraph/conversion.py", UT), "S, its rank, both kernels and every decision built on them are wrong")
